@@ -135,6 +135,9 @@ class Summary:
         self.events = []        # Event list (last pass)
         self.unknown = []       # (node, text) unresolved calls touching parameter storage
         self.field_writes = {}  # param -> set of attr names rebound
+        self.callees = set()    # resolved FuncInfo callees
+        self.callargs = {}      # id(call node) -> (call node, [arg AVs], {kw: AV})
+        self.dangling = []      # (call node, 'cls.X' text): attribute of a known class that does not exist
 
     def key(self):
         return (tuple(sorted((p, tuple(sorted(ws))) for p, ws in self.writes.items())),
@@ -180,6 +183,20 @@ class Effects:
     def _analyse(self, f):
         w = _Walker(self, f)
         return w.run()
+
+    def reachable(self, roots):
+        """transitive closure of resolved callees from the given FuncInfos"""
+        seen = []
+        todo = list(roots)
+        while todo:
+            f = todo.pop()
+            if f in seen:
+                continue
+            seen.append(f)
+            sm = self.sums.get(f)
+            if sm is not None:
+                todo.extend(sm.callees)
+        return seen
 
     # -------------------------------------------------------- call targets
     def resolve_call(self, f, call):
@@ -671,6 +688,9 @@ class _Walker:
             recv = self.ev(c.func.value, env)
         tgt = e.resolve_call(self.f, c)
         fresh = frozenset([('fresh', c.lineno)])
+        self.s.callargs[id(c)] = (c, args, kws)
+        if tgt is not None and tgt[0] == 'funcs':
+            self.s.callees.update(tgt[1])
         allargs = EMPTY
         for a in args:
             allargs = allargs | flat(a)
@@ -924,6 +944,7 @@ class _Walker:
             cands = []
         if cands:
             self.e.n_resolved += 1
+            self.s.callees.update(cands)
             for callee in cands:
                 if callee.kind == 'classmethod':
                     b = 'cls'
@@ -938,6 +959,13 @@ class _Walker:
             return out if out is not None else fresh
         if (self.f.name, name) in DECLARED_CALLABLES:
             return self.local_callable(name, c, args, kws, allargs, fresh)
+        # cls.X / self.X / self.__class__.X that does not exist anywhere in the family:
+        # a certain AttributeError, not an unknown effect
+        d = dotted_name(c.func)
+        if d is not None and self.f.params and d.split('.')[0] == self.f.params[0] \
+                and self.f.params[0] in ('cls', 'self') and (d.count('.') == 1 or '.__class__.' in d):
+            self.s.dangling.append((c, d))
+            return fresh
         # unknown method
         if any(x[0] == 'p' for x in (r | allargs)):
             self.s.unknown.append((c, 'unresolved method `.%s`' % name))
